@@ -405,6 +405,61 @@ pub fn oracle(args: &[String]) {
             println!("{{\"kind\":\"moracle\",\"case\":\"fill\",\"n\":{},\"op\":\"fill\",\"a\":\"{}\",\"scalar\":{},\"ok\":{},\"finding_key\":\"c17-fill\",\"why\":{:?}}}", n, storage_str(&st), c, why.is_empty(), why);
         } }
     }
+    // chains: two to four operations in a row (by-value, in-place and scalar), the operand of a later step being the result
+    // of an earlier one, every intermediate result compared with the dense computation.  A third of the chains start from
+    // Identity storage, whose representation after an in-place scalar operation is the delicate one.
+    let mut r3 = Rng(seed ^ 0xC17C);
+    for case in 0..cases {
+        let n = 1 + r3.below(maxn);
+        let start_id = r3.chance(0.34);
+        let (mut a, desc) = if start_id { (Matrix::identity(n), "identity".to_string()) } else { build(&mut r3, n) };
+        let mut why = String::new();
+        let mut trail = String::new();
+        let mut da = match dense_of(&a) { Some(d) => d, None => { why = "constructor result cannot be read".into(); vec![] } };
+        let steps = 2 + r3.below(3);
+        for _ in 0..steps {
+            if !why.is_empty() { break; }
+            let opk = r3.below(9);
+            let c = if r3.chance(0.25) { 0.0 } else { rand_val(&mut r3) };
+            // the other operand: a fresh matrix, the identity, or a scaled identity made in place
+            let (b, bname) = match r3.below(4) {
+                0 => (Matrix::identity(n), "I"),
+                1 => { let mut m = Matrix::identity(n); m.component_mul_mut(c); (m, "cI(mut)") }
+                _ => (build(&mut r3, n).0, "M"),
+            };
+            let db = match dense_of(&b) { Some(d) => d, None => { why = format!("operand {} cannot be read", bname); break; } };
+            let opname = ["add", "sub", "add_assign", "sub_assign", "sub_assign_ref", "cadd", "csub", "cmul", "cmulmut"][opk];
+            trail += &format!("{}{} ", opname, if opk < 5 { format!("[{}]", bname) } else { format!("[{}]", c) });
+            let a0 = a.clone();
+            let res = catch_unwind(AssertUnwindSafe(move || { let mut a = a0; match opk {
+                0 => a + b,
+                1 => a - b,
+                2 => { a += b; a }
+                3 => { a -= b; a }
+                4 => { a -= &b; a }
+                5 => a.component_add(c),
+                6 => a.component_sub(c),
+                7 => a.component_mul(c),
+                _ => { a.component_mul_mut(c); a }
+            } }));
+            match res {
+                Err(_) => { why = format!("{} panicked on well-formed operands", opname); }
+                Ok(r) => match dense_of(&r) {
+                    None => why = format!("result of {} cannot be read", opname),
+                    Some(dr) => {
+                        for k in 0..n * n {
+                            let want = match opk { 0 | 2 => da[k] + db[k], 1 | 3 | 4 => da[k] - db[k], 5 => da[k] + c, 6 => da[k] - c, _ => da[k] * c };
+                            if dr[k] != want { why = format!("after `{}`: entry ({},{}) = {} but the dense computation gives {}", trail.trim_end(), k / n, k % n, dr[k], want); break; }
+                        }
+                        let isid_dense = (0..n * n).all(|k| dr[k] == if k / n == k % n { 1.0 } else { 0.0 });
+                        if why.is_empty() && r.is_identity() != isid_dense { why = format!("after `{}`: is_identity = {} but the entries say {}", trail.trim_end(), r.is_identity(), isid_dense); }
+                        da = dr; a = r;
+                    }
+                },
+            }
+        }
+        println!("{{\"kind\":\"moracle\",\"case\":\"chain{}\",\"n\":{},\"op\":\"chain\",\"a\":\"{}\",\"trail\":{:?},\"ok\":{},\"finding_key\":\"c17-chain\",\"why\":{:?}}}", case, n, desc, trail.trim_end(), why.is_empty(), why);
+    }
     for case in 0..cases {
         let n = 1 + rng.below(maxn);
         let (a, da_desc) = build(&mut rng, n);
